@@ -363,6 +363,11 @@ func winClass(window, L int) string {
 // storedForm checks what the masking encryptor produced; returns the stored envelope (nil when the hidden
 // part was passed through because it already is a protected value).
 func storedForm(vs *hx.Vs, w *fix.World, layer string, value, stored []byte, window int, side, envelope string) (env []byte, passthrough, ok bool) {
+	return storedFormFor(vs, w, w.Alice, layer, value, stored, window, side, envelope)
+}
+
+// storedFormFor is storedForm for a column that belongs to owner (the identity whose keys protect it).
+func storedFormFor(vs *hx.Vs, w *fix.World, owner []byte, layer string, value, stored []byte, window int, side, envelope string) (env []byte, passthrough, ok bool) {
 	win, hidden := split(value, window, side)
 	if len(stored) < len(win) {
 		vs.Add("stored-form:"+layer, "stored value has %d bytes, the clear window alone has %d", len(stored), len(win))
@@ -385,7 +390,7 @@ func storedForm(vs *hx.Vs, w *fix.World, layer string, value, stored []byte, win
 		}
 		return nil, true, true
 	}
-	plain, err := openContainer(w, w.Alice, envelope, env)
+	plain, err := openContainer(w, owner, envelope, env)
 	if err != nil {
 		if bytes.Equal(env, hidden) && envelopePrefix(hidden) {
 			addKnown(vs, "envelope-then-plaintext-stored-in-clear:"+layer, "the part outside the window (%d bytes) starts with a whole envelope followed by other bytes and is stored in clear as if it were an already protected value (window %d of %d, side %s)", len(hidden), window, len(value), side)
@@ -503,9 +508,12 @@ func CheckComponent(c Case) (vs hx.Vs, nontrivial bool, classes []string) {
 		return
 	}
 	want := join(win, []byte(c.Pattern), c.Side)
-	if len(hidden) > 0 {
+	if len(hidden) > 0 && !inWindow {
 		// bytes that also occur in the stored envelope say nothing about the plaintext (envelope headers repeat
-		// when the hidden part itself holds an envelope); a ciphertext leak is looked for separately
+		// when the hidden part itself holds an envelope); a ciphertext leak is looked for separately. With an
+		// envelope-shaped piece inside the clear window the reader may legitimately open it (its own envelope):
+		// what it reveals can share 4 bytes with the hidden part (markers share a prefix), so that class is
+		// left to the exact comparison of the known-finding branch below
 		if at, found := leak(out, hidden, append(append([]byte{}, want...), env...), 4); found {
 			vs.Add("hidden-plaintext-leaked:component", "%s received 4 bytes of the hidden part (offset %d of %d): output %.60q", c.Reader, at, len(hidden), out)
 		}
@@ -607,6 +615,14 @@ func TestReplay(t *testing.T) {
 				return hx.Vs{{Sig: "harness:decode", Msg: err.Error()}}
 			}
 			vs, _, _ := CheckComponent(c)
+			return vs
+		},
+		"TestMaskSessionsMySQL": func(raw json.RawMessage) hx.Vs {
+			var c MyMaskCase
+			if err := json.Unmarshal(raw, &c); err != nil {
+				return hx.Vs{{Sig: "harness:decode", Msg: err.Error()}}
+			}
+			vs, _, _ := CheckMaskMySQL(c)
 			return vs
 		},
 		"TestMaskSessions": func(raw json.RawMessage) hx.Vs {
